@@ -2,9 +2,13 @@
 """store_seeds.py <ID> <outdir> <k>=<outcome text> ... : copy verified seeded changes into /verif/seeded/<ID>-<k>/ with meta."""
 import sys, json, os, shutil
 pid, out = sys.argv[1], sys.argv[2]
+tag = ""
+if ":" in pid:
+    pid, tag = pid.split(":")
+    tag = tag + "-"
 for a in sys.argv[3:]:
     k, _, outcome = a.partition("=")
-    src = os.path.join(out, k); dst = f"/verif/seeded/{pid}-{k}"
+    src = os.path.join(out, k); dst = f"/verif/seeded/{pid}-{tag}{k}"
     if os.path.isdir(dst):
         shutil.rmtree(dst)
     shutil.copytree(src, dst)
@@ -12,7 +16,7 @@ for a in sys.argv[3:]:
     m = json.load(open(mp))
     m["property"] = pid
     m["confirmed_by_coordinator"] = "tools/verify_seed.sh: demo passes on the unchanged tree; with the patch: go build ok, go test ./... passes, demo fails"
-    m["checked_with"] = f"tools/seedtest.sh {pid} seeded/{pid}-{k}/patch.diff"
+    m["checked_with"] = f"tools/seedtest.sh {pid} seeded/{pid}-{tag}{k}/patch.diff"
     m["outcome"] = outcome
     json.dump(m, open(mp, "w"), indent=1)
     print("stored", dst)
